@@ -19,7 +19,7 @@ FIXTURES = [{"name": "fixture:" + m, "args": ["fixture-load", _os.path.join(_FX,
 
 SCENARIOS = {
     "C01": {
-        "modules": ["C01", "C01Checker", "C01Examples", "Unconditional", "Reachable"],
+        "modules": ["C01", "C01Checker", "C01Examples", "Unconditional", "Reachable", "Checkers"],
         "theorems": ["C01_reader_reachable", "C01_forest", "C01_invariant", "C01_checker_accepts", "C01_build", "C01_build_any", "C01_history",
                      "C01_checker_sound", "C01_inv_add", "C01_inv_append", "C01_inv_del", "C01_inv_clear"],
         "quick": [hist("c01", 150, extra=T1), hist("c01", 30), hist("c14", 12, extra=T1)],
@@ -35,8 +35,8 @@ SCENARIOS = {
         "counts": ["C04"],
     },
     "C05": {
-        "modules": ["C05", "C05Build", "Reachable"],
-        "theorems": ["C05_bq_readback", "C05_build_preserves", "C05_add", "C05_append", "C05_del", "C05_clear", "C05_contains", "C05_vector", "C05_readback_f32",
+        "modules": ["C05", "C05Build", "Reachable", "C05History"],
+        "theorems": ["C05_history", "C05_history_presence", "C05_history_reader", "C05_build_never_changes_spec", "C05_overwrite_last_wins", "C05_delete_reports_presence", "C05_history_transactions", "C05_bq_readback", "C05_build_preserves", "C05_add", "C05_append", "C05_del", "C05_clear", "C05_contains", "C05_vector", "C05_readback_f32",
                      "C05_iter", "C05_isEmpty", "C05_refines", "C05_bq_readback_given_roundtrip"],
         "quick": [hist("c05", 120, extra=T1)],
         "thorough": [hist("c05", 1500, "thorough", extra=T1), hist("c05", 200, "thorough")],
@@ -59,7 +59,7 @@ SCENARIOS = {
         "counts": ["C02", "C01"],
     },
     "C03": {
-        "modules": ["C03", "Reachable", "C03Bq", "C03Sorted"],
+        "modules": ["C03", "Reachable", "C03Bq", "C03Sorted", "Checkers"],
         "theorems": ["C03_reported_sorted", "C03_reported_sorted_scores", "C03_by_item_eq_by_vector_bq", "C03_by_item_eq_by_vector_reachable", "C03_total_reachable", "C03_filter_exact_reachable", "C03_monotone_reachable", "C03_wellformed", "C03_total", "C03_filter_exact", "C03_default_budget", "C03_by_item_absent",
                      "C03_by_item_present", "C03_by_item_eq_by_vector", "C03_prefix", "C03_monotone", "C03_budget_le"],
         "quick": [hist("c03", 100, extra=T1)],
